@@ -1,8 +1,255 @@
-from .base import Check
+"""C03 -- a CSG expression denotes one solid however it is built, shared or evaluated.
+
+Exploration over expression DAGs x forcing histories, differential against
+eager evaluation; arms ser and par (task_group interleavings in BatchBoolean
+are simtbb's)."""
+import random
+import simdrv
+from .base import Check, key_str
 
 
-class Stub(Check):
+class Dag:
+    def __init__(self, rng):
+        self.rng = rng
+        self.leaves = []     # leaf program ops
+        self.nleafpool = 0   # pool size after leaves
+        self.dag = []        # dag ops
+        self.src = []        # per pool index: frozenset of (leaf, tid) surface sources; None = not usable as operand
+        self.tid = 0
+        self.eq = []
+
+    def R(self):
+        return self.rng.randrange(1000)
+
+    def add_leaf(self):
+        rng = self.rng
+        k = rng.choice(["cube", "sphere", "cyl", "tet", "cube", "sphere"])
+        if k == "cube":
+            op = "cube:%d,%d,%d,%d" % (self.R(), self.R(), self.R(), rng.randrange(2))
+        elif k == "sphere":
+            op = "sphere:%d,%d" % (self.R(), rng.randint(1, 3))
+        elif k == "cyl":
+            op = "cyl:%d,%d,%d,%d,%d" % (self.R(), self.R(), self.R(), rng.randint(0, 12), rng.randrange(2))
+        else:
+            op = "tet"
+        i = len(self.src)
+        self.leaves += [op, "rot:%d,%d,%d,%d" % (i, self.R(), self.R(), self.R()), "trans:%d,%d,%d,%d" % (i + 1, self.R(), self.R(), self.R())]
+        self.src += [None, None, frozenset([(i, 0)])]
+
+    def node(self, op, sources):
+        self.dag.append(op)
+        self.src.append(sources)
+        return len(self.src) - 1
+
+    def retransform(self, i):
+        """Fresh generic transform of node i (new surface identity)."""
+        self.tid += 1
+        s = frozenset((l, self.tid * 1000 + t) for (l, t) in self.src[i])
+        j = self.node("rot:%d,%d,%d,%d" % (i, self.R(), self.R(), self.R()), s)
+        self.tid += 1
+        s = frozenset((l, self.tid * 1000 + t) for (l, t) in s)
+        return self.node("trans:%d,%d,%d,%d" % (j, self.R(), self.R(), self.R()), s)
+
+    def usable(self):
+        return [i for i, s in enumerate(self.src) if s is not None]
+
+    def pick_disjoint(self, n):
+        """n operands pairwise in general position (re-transforming reused sub-expressions)."""
+        out, used = [], frozenset()
+        for _ in range(n):
+            i = self.rng.choice(self.usable())
+            if self.src[i] & used:
+                i = self.retransform(i)
+            used = used | self.src[i]
+            out.append(i)
+        return out
+
+    def grow(self):
+        rng = self.rng
+        k = rng.random()
+        if k < 0.45:
+            a, b = self.pick_disjoint(2)
+            op = rng.choice(["add", "sub", "int", "add", "sub"])
+            self.node("%s:%d,%d" % (op, a, b), self.src[a] | self.src[b])
+        elif k < 0.55:
+            ops = self.pick_disjoint(rng.randint(2, 5))
+            s = frozenset().union(*[self.src[i] for i in ops])
+            self.node("batch:%d,%s" % (rng.randrange(3), ",".join(map(str, ops))), s)
+        elif k < 0.65:
+            self.retransform(rng.choice(self.usable()))
+        elif k < 0.72:
+            i = rng.choice(self.usable())
+            self.tid += 1
+            s = frozenset((l, self.tid * 1000 + t) for (l, t) in self.src[i])
+            self.node(rng.choice(["scale:%d,%d,%d,%d", "mirror:%d,%d,%d,%d"]) % (i, self.R(), self.R(), self.R()), s)
+        elif k < 0.80:  # (a-b)-c == a-(b+c)
+            a, b, c = self.pick_disjoint(3)
+            n1 = self.node("sub:%d,%d" % (a, b), self.src[a] | self.src[b])
+            n2 = self.node("sub:%d,%d" % (n1, c), self.src[n1] | self.src[c])
+            n3 = self.node("add:%d,%d" % (b, c), self.src[b] | self.src[c])
+            n4 = self.node("sub:%d,%d" % (a, n3), self.src[a] | self.src[n3])
+            self.eq.append((n2, n4))
+            self.src[n4] = None if rng.random() < 0.5 else self.src[n4]
+        elif k < 0.90:  # nested == batch
+            ops = self.pick_disjoint(rng.randint(3, 5))
+            kind = rng.choice([0, 2])
+            name = "add" if kind == 0 else "int"
+            cur = ops[0]
+            for o in ops[1:]:
+                cur = self.node("%s:%d,%d" % (name, cur, o), self.src[cur] | self.src[o])
+            s = frozenset().union(*[self.src[i] for i in ops])
+            nb = self.node("batch:%d,%s" % (kind, ",".join(map(str, ops))), s)
+            self.eq.append((cur, nb))
+            self.src[nb] = None
+        elif k < 0.95:  # bbox-disjoint operands (Compose fast path) vs overlapping boxes
+            a, b = self.pick_disjoint(2)
+            self.node("compose:%d,%d,%d" % (a, b, self.R()), self.src[a] | self.src[b])
+        else:  # += chain
+            a, b = self.pick_disjoint(2)
+            self.node("selfop:%d,%d,%d" % (a, rng.randrange(3), b), self.src[a] | self.src[b])
+
+
+def make_case(rng):
+    d = Dag(rng)
+    for _ in range(rng.randint(3, 5)):
+        d.add_leaf()
+    d.nleafpool = len(d.src)
+    target = rng.randint(4, 12)
+    while len(d.dag) < target:
+        d.grow()
+    # forcing history: which intermediates are forced, when, with which getter
+    hist = []
+    mode = rng.random()
+    nd = len(d.dag)
+    if mode < 0.25:
+        pass  # root only
+    elif mode < 0.5:
+        for step in range(nd):
+            if rng.random() < 0.3:
+                hist.append((step, rng.randrange(d.nleafpool, d.nleafpool + step + 1), rng.randrange(4)))
+    else:
+        for _ in range(rng.randint(1, 6)):
+            step = rng.randrange(nd)
+            hist.append((step, rng.randrange(d.nleafpool, d.nleafpool + step + 1), rng.randrange(4)))
+    hist.sort()
+    eq = ["%d:%d" % (a - d.nleafpool, b - d.nleafpool) for a, b in d.eq]
+    return {"leaves": ";".join(d.leaves), "dag": ";".join(d.dag), "force": ",".join("%d:%d:%d" % h for h in hist),
+            "eq": ",".join(eq)}
+
+
+class C03(Check):
     prop = "C03"
+    level = "exploration"
+    flavours = ["ser", "par"]
+    assumptions = [
+        "leaves are small primitives under generic rotations/translations; a sub-expression is reused only under a fresh generic "
+        "transform (general position, as the quantifier states)",
+        "both sides of the comparison are outputs of this library; equality of solids is judged by an independent solid-angle "
+        "winding number at seeded points farther than delta = max(1000*tolerance, 1e-7) from both surfaces and by volume within "
+        "area*delta; identical forcing histories must give bit-identical results",
+    ]
+
+    def explore(self):
+        rng = random.Random(self.seed * 69621 + 3)
+        hashes, nontrivial = set(), set()
+        stats = {"dags": 0, "nodes": 0, "comparisons": 0, "points_used": 0, "max_volume_err": 0.0, "steals": 0, "steps": 0, "crashes": 0,
+                 "with_equivalences": 0, "forced_histories": 0}
+        flcount = {}
+        samples = []
+        while self.time_left() > 8:
+            jobs = []
+            for _ in range(128):
+                c = make_case(rng)
+                fl = rng.choice(["ser", "par"])
+                args = dict(c, points=24, pseed=rng.randrange(1 << 30))
+                if fl == "par":
+                    args.update({"W": rng.choice([1, 2, 4, 8]), "stay": rng.choice([0, 30, 60, 85]), "own": rng.choice([30, 70, 95]),
+                                 "seed": rng.randrange(1, 1 << 30), "thr": rng.choice([64, 16])})
+                jobs.append({"flavour": fl, "kind": "c03", "args": args, "timeout": 300})
+            res = self.pool.run_all(jobs, deadline=self.deadline)
+            for j, r in zip(jobs, res):
+                if r.get("skipped"):
+                    continue
+                if not r["ok"]:
+                    stats["crashes"] += 1
+                    key = {"clause": "crash_" + simdrv.classify_crash(r)}
+                    self.add_finding(key, "worker died: %s" % simdrv.crash_summary(r), {"property": "C03", "flavour": j["flavour"], "args": j["args"]})
+                    continue
+                x = r["res"]
+                self.cov["evaluations"] += 1
+                stats["dags"] += 1
+                stats["nodes"] += x["nodes"]
+                stats["comparisons"] += x["compared"]
+                stats["points_used"] += x["points_used"]
+                stats["max_volume_err"] = max(stats["max_volume_err"], x["max_volume_err"] or 0)
+                stats["steals"] += x["sim"]["steals"]
+                stats["steps"] += x["sim"]["steps"]
+                if j["args"]["eq"]:
+                    stats["with_equivalences"] += 1
+                if j["args"]["force"]:
+                    stats["forced_histories"] += 1
+                flcount[j["flavour"]] = flcount.get(j["flavour"], 0) + 1
+                h = "%s|%s|%s" % (hash(j["args"]["dag"]), j["args"]["force"], x["sim"]["hash"])
+                hashes.add(h)
+                if x["compared"] >= 3:
+                    nontrivial.add(h)
+                for v in x["viol"]:
+                    parts = v["clause"].split(":")
+                    key = {"clause": parts[0], "detail": parts[1] if len(parts) > 1 else ""}
+                    self.add_finding(key, "DAG leaves=[%s] dag=[%s] force=[%s] eq=[%s] (%s): node %d: %s" % (
+                        j["args"]["leaves"], j["args"]["dag"], j["args"]["force"], j["args"]["eq"], j["flavour"], v["node"], v["clause"]),
+                        {"property": "C03", "flavour": j["flavour"], "args": j["args"]})
+                if len(samples) < 6 and rng.random() < 0.03:
+                    samples.append({"flavour": j["flavour"], "dag": j["args"]["dag"], "force": j["args"]["force"], "eq": j["args"]["eq"],
+                                    "nodes": x["nodes"], "comparisons": x["compared"]})
+        self.cov.update({
+            "distinct_nontrivial": len(nontrivial),
+            "rule": "one evaluation = one expression DAG built eagerly once and lazily twice under one seeded forcing history, "
+                    "compared node by node; distinct = distinct (DAG, forcing history, decision hash); non-trivial = at least 3 node comparisons",
+            "samples": samples, "flavours": flcount, "totals": stats,
+            "components": {"real": "CSG tree evaluator (ToLeafNode, BatchBoolean, BatchUnion/Compose, lazy transforms), Boolean3",
+                           "stub": "oneTBB runtime scheduler (par flavour)"},
+        })
+
+    def reproduce(self, replay, fresh=False):
+        r = self.run_job({"flavour": replay["flavour"], "kind": "c03", "args": replay["args"], "timeout": 300}, fresh)
+        if not r["ok"]:
+            return {"clause": "crash_" + simdrv.classify_crash(r)}, "crash"
+        exp = replay.get("expect")
+        keys = []
+        for v in r["res"]["viol"]:
+            parts = v["clause"].split(":")
+            keys.append({"clause": parts[0], "detail": parts[1] if len(parts) > 1 else ""})
+        h = r["res"]["sim"]["hash"]
+        for k in keys:
+            if exp is None or key_str(k) == key_str(exp):
+                return k, h
+        return (keys[0] if keys else None), h
+
+    def minimise(self, finding):
+        rep = {k: (dict(v) if isinstance(v, dict) else v) for k, v in finding["replay"].items()}
+        want = key_str(finding["key"])
+        rep["expect"] = finding["key"]
+        a = dict(rep["args"])
+
+        def still(b):
+            k, _ = self.reproduce(dict(rep, args=b))
+            return k is not None and key_str(k) == want
+
+        # drop forcing events, then trailing dag ops (indices are explicit, so only suffixes can be cut safely)
+        fl = [f for f in a["force"].split(",") if f]
+        if fl:
+            fl2, _ = simdrv.ddmin(fl, lambda s: still(dict(a, force=",".join(s))), budget=12)
+            if still(dict(a, force=",".join(fl2))):
+                a["force"] = ",".join(fl2)
+        ops = a["dag"].split(";")
+        for cut in range(1, len(ops)):
+            b = dict(a, dag=";".join(ops[:cut]))
+            if still(b):
+                a = b
+                break
+        rep["args"] = a
+        return {"key": finding["key"], "desc": finding["desc"] + " [minimised dag=%s force=%s]" % (a["dag"], a["force"]), "replay": rep}
 
 
-CHECK = Stub()
+CHECK = C03()
